@@ -30,7 +30,7 @@ COMPONENTS = {
     "real": ["eolib.data.EoWriter (sanitisation on)", "eolib.data.EoReader (chunked mode)", "codecs"],
     "stub_or_harness": ["sender/receiver scripts (version-skewed read plans)", "expected-value computation"],
 }
-PROBES = ["unsanitised_y_in_header", "overread_spanning_integer", "empty_chunk", "string_only_y_diaeresis", "last_chunk_overread",
+PROBES = ["mode_reassigned_mid_stream", "generated_serializer_session", "unsanitised_y_in_header", "overread_spanning_integer", "empty_chunk", "string_only_y_diaeresis", "last_chunk_overread",
           "underread_then_surplus", "first_byte_y_diaeresis", "last_byte_y_diaeresis", "one_char_y_diaeresis"]
 FAULT_KINDS = ["under_read", "over_read"]
 
@@ -72,13 +72,28 @@ def generate(streams, tier):
         prefix = rng.choice([nf, nf, rng.randrange(0, nf + 1)])
         surplus = []
         for _ in range(rng.choice([0, 0, 1, 2, 4])):
+            if rng.random() < 0.2:
+                surplus.append([rng.choice(["reassign_mode", "mode_off_on"])])   # no-ops by contract
+                continue
             op = rng.choice(SURPLUS)
             if op in ("get_bytes", "get_fixed_string", "get_fixed_encoded_string"):
                 surplus.append([op, rng.randrange(0, 9)])
             else:
                 surplus.append([op])
         chunks.append({"fields": fields, "prefix": prefix, "surplus": surplus})
-    return {"chunks": chunks, "header": header}
+    plan = {"chunks": chunks, "header": header}
+    if rng.random() < 0.05:
+        # the sender is a GENERATED packet serializer (chunked section, nested struct with or without its own
+        # chunked section, strings after the nested struct); the receiver is still a hand-driven EoReader
+        plan["generated"] = {
+            "variant": rng.choice(["InnerChunked", "InnerPlain"]),
+            "h": (pool.get(vr, min_len=2, max_len=2) + "xx")[:2],
+            "s1": pool.get(vr), "a": pool.get(vr, min_len=3, max_len=3) if True else "", "b": gen_int_in_range(vr, "short"),
+            "s2": pool.get(vr), "k": gen_int_in_range(vr, "three"), "s3": pool.get(vr, allow_tilde=False),
+            "skip": [rng.random() < 0.3 for _ in range(6)], "extra": [rng.random() < 0.3 for _ in range(6)],
+        }
+        plan["generated"]["a"] = (plan["generated"]["a"] + "abc")[:3]
+    return plan
 
 
 SHRINK_KEYS = ["chunks", "header"]
@@ -88,8 +103,105 @@ def image(s):
     return s.replace("ÿ", "y").encode("cp1252", "replace").decode("cp1252", "replace")
 
 
+_HDR = '<?xml version="1.0" encoding="UTF-8"?>\n'
+
+
+def c06_tree():
+    from ..workspace import skeleton_tree
+    t = skeleton_tree()
+    t["net/protocol.xml"] = _HDR + """<protocol>
+    <enum name="PacketFamily" type="byte"><value name="Talk">1</value></enum>
+    <enum name="PacketAction" type="byte"><value name="Tell">1</value><value name="Report">2</value></enum>
+    <struct name="InnerChunked">
+        <chunked>
+            <field name="a" type="string"/>
+            <break/>
+            <field name="b" type="short"/>
+        </chunked>
+    </struct>
+    <struct name="InnerPlain">
+        <field name="a" type="string" length="3"/>
+        <field name="b" type="short"/>
+    </struct>
+</protocol>
+"""
+    packet = """    <packet family="Talk" action="%s">
+        <field name="h" type="string" length="2"/>
+        <chunked>
+            <field name="s1" type="string"/>
+            <break/>
+            <field name="inner" type="%s"/>
+            <break/>
+            <field name="s2" type="string"/>
+            <break/>
+            <field name="k" type="three"/>
+            <field name="s3" type="encoded_string"/>
+        </chunked>
+    </packet>
+"""
+    t["net/server/protocol.xml"] = _HDR + "<protocol>\n" + packet % ("Tell", "InnerChunked") + packet % ("Report", "InnerPlain") + "</protocol>\n"
+    return t
+
+
+def load(env):
+    if not env.cache.get("c06_loaded"):
+        env.load_tree(c06_tree())
+        env.cache["c06_loaded"] = True
+
+
+def run_generated(plan, env, res, tr, fail):
+    """Sender = generated packet serializer; receiver = EoReader in chunked mode with per-chunk skips/extras."""
+    g = plan["generated"]
+    EoWriter = importlib.import_module("eolib.data.eo_writer").EoWriter
+    EoReader = importlib.import_module("eolib.data.eo_reader").EoReader
+    net = importlib.import_module("eolib.protocol._generated.net")
+    srv = importlib.import_module("eolib.protocol._generated.net.server")
+    inner_cls = getattr(net, g["variant"])
+    pkt_cls = srv.TalkTellServerPacket if g["variant"] == "InnerChunked" else srv.TalkReportServerPacket
+    pkt = pkt_cls(h=g["h"], s1=g["s1"], inner=inner_cls(a=g["a"], b=g["b"]), s2=g["s2"], k=g["k"], s3=g["s3"])
+    w = EoWriter()
+    pkt.write(w)
+    out = bytes(w.to_bytearray())
+    tr.ev("generated", g["variant"], out.hex())
+    res.count("probe.generated_serializer_session")
+    hb = g["h"].encode("cp1252", "replace")
+    body = out[len(hb):]
+    if g["variant"] == "InnerChunked":
+        chunks = [[("s", g["s1"])], [("s", g["a"])], [("short", g["b"])], [("s", g["s2"])], [("three", g["k"]), ("e", g["s3"])]]
+    else:
+        chunks = [[("s", g["s1"])], [("f3", g["a"]), ("short", g["b"])], [("s", g["s2"])], [("three", g["k"]), ("e", g["s3"])]]
+    if body.count(0xFF) != len(chunks) - 1:
+        return fail("break-in-payload", "generated-serializer",
+                    f"{pkt_cls.__name__} wrote {body.count(0xFF)} break bytes after the header for {len(chunks)} chunks: "
+                    f"{out.hex()} (values {g})", 0)
+    r = EoReader(out)
+    r.get_fixed_string(len(hb))
+    r = r.slice()
+    r.chunked_reading_mode = True
+    for ci, fields in enumerate(chunks):
+        if not g["skip"][ci]:
+            for kind, val in fields:
+                if kind == "s":
+                    got, want = r.get_string(), image(val)
+                elif kind == "e":
+                    got, want = r.get_encoded_string(), image(val)
+                elif kind == "f3":
+                    got, want = r.get_fixed_string(3), image(val)
+                else:
+                    got, want = getattr(r, "get_" + kind)(), val
+                if got != want:
+                    return fail("field-value", "generated-serializer",
+                                f"{pkt_cls.__name__}: chunk {ci} field {val!r} read as {got!r}, expected {want!r} (wire {out.hex()})", ci)
+            if g["extra"][ci] and r.get_int() != 0:
+                return fail("surplus-value", "generated-serializer", f"{pkt_cls.__name__}: surplus read after chunk {ci} is not 0", ci)
+        r.next_chunk()
+    if r.remaining != 0:
+        return fail("not-at-end", "generated-serializer", f"remaining={r.remaining} after the last chunk", 0)
+    return None
+
+
 def execute(plan, env):
-    env.skeleton()
+    load(env)
     EoWriter = importlib.import_module("eolib.data.eo_writer").EoWriter
     EoReader = importlib.import_module("eolib.data.eo_reader").EoReader
     res = Result()
@@ -102,6 +214,9 @@ def execute(plan, env):
         res.steps = tr.steps
         return res
 
+    if plan.get("generated"):
+        if run_generated(plan, env, res, tr, fail) is not None:
+            return res
     w = EoWriter()
     header = plan.get("header", [])
     for f in header:
@@ -188,6 +303,15 @@ def execute(plan, env):
             res.count("fault.under_read")
         for s in ch["surplus"]:
             step += 1
+            if s[0] == "reassign_mode":
+                r.chunked_reading_mode = True
+                res.count("probe.mode_reassigned_mid_stream")
+                continue
+            if s[0] == "mode_off_on":
+                r.chunked_reading_mode = False
+                r.chunked_reading_mode = True
+                res.count("probe.mode_reassigned_mid_stream")
+                continue
             rem_before = r.remaining
             try:
                 got = getattr(r, s[0])(*s[1:])
@@ -210,7 +334,7 @@ def execute(plan, env):
             res.count("probe.empty_chunk")
             cls = "empty"
         elif full:
-            cls = "over" if ch["surplus"] else "exact"
+            cls = "over" if any(x[0].startswith("get_") for x in ch["surplus"]) else "exact"
         else:
             cls = "under+surplus" if ch["surplus"] else "under"
         classes.append(cls)
